@@ -15,7 +15,23 @@
    Instances (entities, property groups, group/object types) are numbered by the order in which their constructor is
    entered; identifiers are numbers, uuid4() is the counter [fresh].  A weak reference is an instance number, liveness
    is the explicit set [dead]: `ODie` kills instances (the driver drops its references and collects), types die with
-   the last instance that references them.                                                                          *)
+   the last instance that references them.
+
+   OUTSIDE THE MODEL (audit 2, C5) -- where the model is narrower than the code; the driver (tools/props/c06.py) stays
+   inside these bounds, so the correspondence does not exercise them:
+     - Group.copy: only copy_children=False (a group copied alone).  groups/base.py recurses over the children with
+       copy_children=True (the default); that recursion is not modelled and not driven.
+     - copy_pgs always creates a new property group on the copy.  The code goes Workspace.copy_property_groups ->
+       ObjectBase create/fetch_property_group, which first LOOKS FOR a group of the new object by uid / name and raises
+       KeyError on a duplicate name; on a freshly made copy (the only caller modelled) there is none to find and the
+       names of one source object are distinct, so both branches are unreachable here; an existing target object with
+       groups of its own is outside the model.
+     - the type of a copy is keyed by the identifier of its CLASS (tuid cls = default_type_uid of ContainerGroup /
+       Points / RootGroup).  copy_to_parent hands over the SOURCE type's identifier (workspace.py, entity_type uid);
+       the two agree for the default types, custom types (a caller-made GroupType / ObjectType identifier) are outside
+       the model.  Data types are not in the model at all (oracle-only block in c06.py).
+     - a data set is copied under an OBJECT only (kind guard of OCopy); workspace.py accepts any container as parent.
+     - removals are of childless groups / data, or of an object with its data and property groups; no moves.       *)
 From GV Require Import Prelude.Base.
 
 Inductive kind := KGroup | KObject | KData | KPG | KType.
